@@ -223,7 +223,8 @@ S_FMOD_DEF(double, d, u64, 53, 11, 1023, 0x7ff8000000000000ull)
 #define SMALL_CELL_f (x_bits << 1 >= 0x01000000u || y_bits << 1 < 0x01000000u ? VF_CELL == 0 : (x_bits & 0x7fffffffu) >> (VF_CELL >= 1 ? VF_CELL - 1 : 0) == 1 && VF_CELL >= 1)
 /* A multiple of y has to be subtracted: bounded stand-in (normal operands, quotient below 8; the bit-level reference then needs
  * at most 4 division steps).  Only the quotient-1 band is right in general (x - y is exact, Sterbenz). */
-#define REDUCE_WIN_f (x_bits << 1 >= 0x01000000u && y_bits << 1 >= 0x01000000u && FMOD_DOM_f && (double)ABS_f(x) < 8 * (double)ABS_f(y))
+#define REDUCE_WINK_f(K) (x_bits << 1 >= 0x01000000u && y_bits << 1 >= 0x01000000u && FMOD_DOM_f && (double)ABS_f(x) < (K) * (double)ABS_f(y))
+#define REDUCE_WIN_f REDUCE_WINK_f(8)
 /* ---- nextafter (single source path): successor / predecessor on the IEEE-754 encoding, written on sign and magnitude:
  *      a NaN argument -> NaN; x == y (incl. +0 == -0) -> y; from +-0 -> the smallest subnormal with the sign of y; otherwise the
  *      magnitude field moves by one (up when x moves away from zero: max -> inf; down otherwise: min subnormal -> zero of x's sign,
@@ -311,10 +312,16 @@ void h_fmod_small_f(void) B_FMOD_SMALL(fmod, float, f, __CPROVER_assume(FMOD_DOM
 /*@GROUP name=remainder_small_f props=C16,C02 kind=S split=VF_CELL:0:23 qsplit=0,1,4 solver=kissat timeout=600@*/
 void h_remainder_small_f(void) B_FMOD_SMALL(remainder, float, f, __CPROVER_assume(FMOD_DOM_f && !ZERO_f(x) && 2 * ABS_f(x) <= ABS_f(y) && SMALL_CELL_f); VF_KNOWN(C16_gcem_tiny_as_integral, QTINY_f))
 
-/*@GROUP name=fmod_reduce_f props=C16,C02 kind=B bound=normal-operands,|y|<=|x|<8|y| unwind=26 solver=kissat timeout=300@*/
+/*@GROUP name=fmod_reduce3_f props=C16,C02 kind=B bound=normal-operands,|y|<=|x|<3|y| unwind=26 unwindset=_ZN3etl6detail9fmod_implIfEET_S2_S2_.0:3,_ZN3etl6detail9fmod_implIfEET_S2_S2_.1:4 solver=kissat timeout=600@*/
+void h_fmod_reduce3_f(void) B_FMOD(float, f, __CPROVER_assume(REDUCE_WINK_f(3) && ABS_f(x) >= ABS_f(y)); VF_KNOWN(C16_fmod_gcem_formula, (double)ABS_f(x) >= 2 * (double)ABS_f(y)); VF_KNOWN(C16_fmod_neg_zero, ABS_f(x) == ABS_f(y) && SIGN_f(x)))
+
+/*@GROUP name=remainder_reduce3_f props=C16,C02 kind=B bound=normal-operands,|y|/2<|x|<3|y| unwind=26 unwindset=_ZN3etl6detail9fmod_implIfEET_S2_S2_.0:3,_ZN3etl6detail9fmod_implIfEET_S2_S2_.1:4 solver=kissat timeout=600@*/
+void h_remainder_reduce3_f(void) B_REMAINDER(float, f, __CPROVER_assume(REDUCE_WINK_f(3) && 2 * (double)ABS_f(x) > (double)ABS_f(y)); VF_KNOWN(C16_remainder_is_fmod, ABS_f(x) < ABS_f(y) || 2 * (double)ABS_f(x) >= 3 * (double)ABS_f(y)); VF_KNOWN(C16_fmod_neg_zero, ABS_f(x) == ABS_f(y) && SIGN_f(x)))
+
+/*@GROUP name=fmod_reduce_f props=C16,C02 kind=B bound=normal-operands,|y|<=|x|<8|y| unwind=26 unwindset=_ZN3etl6detail9fmod_implIfEET_S2_S2_.0:5,_ZN3etl6detail9fmod_implIfEET_S2_S2_.1:6 solver=kissat timeout=1800 tier=thorough@*/
 void h_fmod_reduce_f(void) B_FMOD(float, f, __CPROVER_assume(REDUCE_WIN_f && ABS_f(x) >= ABS_f(y)); VF_KNOWN(C16_fmod_gcem_formula, (double)ABS_f(x) >= 2 * (double)ABS_f(y)); VF_KNOWN(C16_fmod_neg_zero, ABS_f(x) == ABS_f(y) && SIGN_f(x)))
 
-/*@GROUP name=remainder_reduce_f props=C16,C02 kind=B bound=normal-operands,|y|/2<|x|<8|y| unwind=26 solver=kissat timeout=300@*/
+/*@GROUP name=remainder_reduce_f props=C16,C02 kind=B bound=normal-operands,|y|/2<|x|<8|y| unwind=26 unwindset=_ZN3etl6detail9fmod_implIfEET_S2_S2_.0:5,_ZN3etl6detail9fmod_implIfEET_S2_S2_.1:6 solver=kissat timeout=1800 tier=thorough@*/
 void h_remainder_reduce_f(void) B_REMAINDER(float, f, __CPROVER_assume(REDUCE_WIN_f && 2 * (double)ABS_f(x) > (double)ABS_f(y)); VF_KNOWN(C16_remainder_is_fmod, ABS_f(x) < ABS_f(y) || 2 * (double)ABS_f(x) >= 3 * (double)ABS_f(y)); VF_KNOWN(C16_fmod_neg_zero, ABS_f(x) == ABS_f(y) && SIGN_f(x)))
 
 /*@GROUP name=fma_f props=C16,C13,C02 kind=F timeout=600 tier=thorough solver=kissat@*/
@@ -380,3 +387,52 @@ void h_remainder_d(void) B_FMOD_SPECIAL(remainder, double, d, VF_KNOWN(C16_fmod_
 
 /*@GROUP name=nextafter_d props=C16,C02 kind=F tier=thorough timeout=600@*/
 void h_nextafter_d(void) B_NEXTAFTER(double, d, VF_KNOWN(C16_nextafter_nan, (NAN_d(y) && !NAN_d(x)) || (NAN_d(x) && (x_bits == 0x7fffffffffffffffull || (x_bits & ~0x8000000000000000ull) == 0x7ff0000000000001ull))); VF_KNOWN(C16_nextafter_pos_toward_neg, !NAN_d(x) && !NAN_d(y) && !SIGN_d(x) && SIGN_d(y)); VF_KNOWN(C16_nextafter_neg_zero_up, x_bits == 0x8000000000000000ull && !NAN_d(y) && !SIGN_d(y)))
+
+/*@COMMON@*/
+/* ---- the f-suffixed spellings (floorf, fminf, ...) and the integral overloads are separate function bodies in tetl: each one is
+ * pinned, on both source paths, to the float / double overload it must be identical to (whose agreement with the C library
+ * the groups above establish).  fmodf/remainderf/hypotf/fmaf loop or are SAT-hard in their own right: the two calls are the
+ * same code, so they are compared over a value window only where noted. */
+#define ALIAS1(fn) { float a = fn##f_s(x), b = fn##_f(x); VF_ASSERT(SAME_f(a, b), "C16: " #fn "f(x) is bit-identical to " #fn "(float)"); }
+#define ALIAS2(fn) { float a = fn##f_s(x, y), b = fn##_f(x, y); VF_ASSERT(SAME_f(a, b), "C16: " #fn "f(x, y) is bit-identical to " #fn "(float, float)"); }
+#define ALIAS_BOTH1(fn) { IN_f(x); vf_ce = 1; ALIAS1(fn) vf_ce = 0; ALIAS1(fn) VF_REACH(); }
+#define ALIAS_BOTH2(fn) { IN_f(x); IN_f(y); vf_ce = 1; ALIAS2(fn) vf_ce = 0; ALIAS2(fn) VF_REACH(); }
+/*@GROUP name=alias_floor_f props=C16,C13,C02 kind=F@*/
+void h_alias_floor_f(void) ALIAS_BOTH1(floor)
+/*@GROUP name=alias_ceil_f props=C16,C13,C02 kind=F@*/
+void h_alias_ceil_f(void) ALIAS_BOTH1(ceil)
+/*@GROUP name=alias_trunc_f props=C16,C13,C02 kind=F@*/
+void h_alias_trunc_f(void) ALIAS_BOTH1(trunc)
+/*@GROUP name=alias_round_f props=C16,C13,C02 kind=F@*/
+void h_alias_round_f(void) ALIAS_BOTH1(round)
+/*@GROUP name=alias_rint_f props=C16,C13,C02 kind=F@*/
+void h_alias_rint_f(void) ALIAS_BOTH1(rint)
+/*@GROUP name=alias_fabs_f props=C16,C13,C02 kind=F@*/
+void h_alias_fabs_f(void) ALIAS_BOTH1(fabs)
+/*@GROUP name=alias_copysign_f props=C16,C13,C02 kind=F@*/
+void h_alias_copysign_f(void) ALIAS_BOTH2(copysign)
+/*@GROUP name=alias_fmin_f props=C16,C13,C02 kind=F@*/
+void h_alias_fmin_f(void) ALIAS_BOTH2(fmin)
+/*@GROUP name=alias_fmax_f props=C16,C13,C02 kind=F@*/
+void h_alias_fmax_f(void) ALIAS_BOTH2(fmax)
+/*@GROUP name=alias_fdim_f props=C16,C13,C02 kind=F@*/
+void h_alias_fdim_f(void) ALIAS_BOTH2(fdim)
+/*@GROUP name=alias_nextafter_f props=C16,C13,C02 kind=F@*/
+void h_alias_nextafter_f(void) ALIAS_BOTH2(nextafter)
+/*@GROUP name=alias_lrint_f props=C16,C13,C02 kind=F@*/
+void h_alias_lrint_f(void) { IN_f(x); __CPROVER_assume(!NAN_f(x) && ABS_f(x) < P63_f);
+  vf_ce = 1; VF_ASSERT(lrintf_s(x) == lrint_f(x), "C16: lrintf(x) equals lrint(float)"); VF_ASSERT(llrintf_s(x) == llrint_f(x), "C16: llrintf(x) equals llrint(float)");
+  vf_ce = 0; VF_ASSERT(lrintf_s(x) == lrint_f(x), "C16: lrintf(x) equals lrint(float)"); VF_ASSERT(llrintf_s(x) == llrint_f(x), "C16: llrintf(x) equals llrint(float)");
+  VF_REACH(); }
+
+/*@GROUP name=alias_int props=C16,C02 kind=F@*/
+void h_alias_int(void) { VF_INPUT(int, i); VF_INPUT(long long, l); VF_INPUT(unsigned, u); VF_INPUT_BOOL(ce); vf_ce = ce;
+#define INT1(fn) VF_ASSERT(bits_d(fn##_i(i)) == bits_d((double)i), "C16: " #fn "(int) is the exactly converted argument"); \
+  VF_ASSERT(bits_d(fn##_u(u)) == bits_d((double)u), "C16: " #fn "(unsigned) is the exactly converted argument"); \
+  VF_ASSERT(bits_d(fn##_ll(l)) == bits_d(fn##_d((double)l)), "C16: " #fn "(long long) equals " #fn "(double) of the converted argument");
+  INT1(floor) INT1(ceil) INT1(trunc) INT1(round)
+  VF_REACH(); }
+
+/* NOT COVERED: fmodf / remainderf / hypotf / fmaf.  Comparing the suffixed spelling with the float overload means proving two copies
+ * of a division / multiplication circuit equal; CBMC did not finish that at full width (300 s, fixed source path), with 8-bit
+ * mantissas (600 s, kissat) or with a symbolic path (out of memory).  The float overloads themselves are covered above. */
